@@ -127,7 +127,7 @@ func nsSharedInvariants(rt *rapid.T, h *nsHist) {
 	defer func() {
 		if r := recover(); r != nil {
 			// attach the history so the failure is readable, then re-panic for rapid
-			fmt.Printf("---- netsim history (%d steps) ----\n%s\n", len(h.steps), strings.Join(h.steps, "\n"))
+			fmt.Printf("---- netsim world: %s\n---- netsim history (%d steps) ----\n%s\n", h.w.describe(), len(h.steps), strings.Join(h.steps, "\n"))
 			panic(r)
 		}
 	}()
